@@ -27,7 +27,9 @@ CONSTANTS Sizes,      \* payload sizes the environment may write
           MaxSteps,   \* length of the environment history
           Variant,    \* "requeue" | "drop" | "eofdiscard"
           WithEof,    \* BOOLEAN: the endpoint is also read from (File in a '+' mode) and reads hit end-of-file
-          WithFatalKeep \* BOOLEAN: include the Client's "signal but stay open" reaction to a fatal errno
+          WithFatalKeep \* BOOLEAN: include the pinned Client's "signal but stay open" reaction to a fatal errno
+                        \* other than EPIPE/ENOTCONN (a defect generator: later chunks are still sent, the stream is no
+                        \* longer a prefix; TLC must flag it - MC_WriteBuf_fatalkeep.cfg)
 
 VARIABLES buf,      \* Seq([off, len])   queued chunks            (_buffer / _buffers[sock])
           writing,  \* BOOLEAN           registered as writer      (poller.isWriting)
